@@ -129,7 +129,9 @@ struct GModel {
   std::vector<std::pair<std::string, std::string>> fixn;
   std::vector<std::pair<std::string, double>> adjn;
   // writer options
-  bool comments = false, bounds_first = true; int colsizes = 1;
+  bool comments = false, bounds_first = true; int colsizes = 1; int prec = 0;
+  bool names_unchecked = false;   // feed the names without asking `if (wrt)` first
+  int need_obj = -1;              // handler variant: only this objective is needed (-1 = all)
   int ncexpr() const { return h.num_common_exprs(); }
 };
 
@@ -140,7 +142,7 @@ class GenFeeder : public mp::NLFeeder<GenFeeder, const GExpr *> {
   explicit GenFeeder(const GModel &mm) : m(mm) {}
   mp::NLHeader Header() { mp::NLHeader h = m.h; h.prob_name = m.prob_name.c_str(); return h; }
   bool WantNLComments() const { return m.comments; }
-  int OutputPrecision() const { return 0; }
+  int OutputPrecision() const { return m.prec; }
   bool WantBoundsFirst() const { return m.bounds_first; }
   int WantColumnSizes() const { return m.colsizes; }
   const char *ObjDescription(int i) { return m.objs[i].descr.c_str(); }
@@ -206,9 +208,9 @@ class GenFeeder : public mp::NLFeeder<GenFeeder, const GExpr *> {
       else { auto sw = swf.StartIntSuffix(s.name.c_str(), s.kind, (int)s.iv.size()); for (auto &t : s.iv) sw.Write(t.first, t.second); }
     }
   }
-  template <class W> void FeedRowAndObjNames(W &wrt) { if (m.rown.size() && wrt) for (auto &s : m.rown) wrt << s.c_str(); }
+  template <class W> void FeedRowAndObjNames(W &wrt) { if (m.rown.size() && (m.names_unchecked || wrt)) for (auto &s : m.rown) wrt << s.c_str(); }
   template <class W> void FeedDelRowNames(W &wrt) { if (m.slcn.size() && wrt) for (auto &s : m.slcn) wrt << s.c_str(); }
-  template <class W> void FeedColNames(W &wrt) { if (m.coln.size() && wrt) for (auto &s : m.coln) wrt << s.c_str(); }
+  template <class W> void FeedColNames(W &wrt) { if (m.coln.size() && (m.names_unchecked || wrt)) for (auto &s : m.coln) wrt << s.c_str(); }
   template <class W> void FeedUnusedVarNames(W &wrt) { if (m.unvn.size() && wrt) for (auto &s : m.unvn) wrt << s.c_str(); }
   template <class W> void FeedFixedVarNames(W &wrt) {
     if (m.fixn.size() && wrt) for (auto &s : m.fixn) wrt << typename W::StrStrValue{s.first.c_str(), s.second.c_str()};
@@ -222,7 +224,9 @@ class GenFeeder : public mp::NLFeeder<GenFeeder, const GExpr *> {
 typedef std::vector<std::string> Lines;
 struct RecHandler : mp::NLHandler<RecHandler, std::string> {
   Lines &out;
+  int need_obj = -1;
   explicit RecHandler(Lines &o) : out(o) {}
+  bool NeedObj(int i) const { return need_obj < 0 || need_obj == i; }
   static std::string hdr_line(const mp::NLHeader &h) {
     std::string s = "hdr fmt=" + itos(h.format) + " nopt=" + itos(h.num_ampl_options) + " opts=";
     for (int i = 0; i < h.num_ampl_options && i < mp::MAX_AMPL_OPTIONS; ++i) s += (i ? "," : "") + itos(h.ampl_options[i]);
@@ -316,6 +320,13 @@ struct RecHandler : mp::NLHandler<RecHandler, std::string> {
   void EndInput() { out.push_back("end"); }
 };
 
+// OutputPrecision() = p > 0 (text format): every "%g" item is printed with p significant digits (dtoa mode 2); the value the
+// reader must report is then the correctly rounded p-digit decimal, computed here with libc only
+static int g_prec = 0; static bool g_text = true;
+static std::string hx(double x) {
+  if (g_prec > 0 && g_text && std::isfinite(x)) { char b[64]; std::snprintf(b, sizeof b, "%.*g", g_prec, x); x = std::strtod(b, nullptr); }
+  return hexd(x);
+}
 // ---------------------------------------------------------------- intended events (what the fed model means)
 enum Ctx { CNUM, CLOG, CSYM };
 static bool is_logical_op(int op) {
@@ -339,7 +350,7 @@ static std::string want(const GModel &m, const GExpr &e, Ctx c) {
   switch (e.k) {
   case GExpr::NUM:
     if (c == CLOG) return std::string("(b ") + (e.x != 0 ? "1" : "0") + ")";
-    return "(n " + hexd(e.x) + ")";
+    return "(n " + hx(e.x) + ")";
   case GExpr::VAR: return e.i < nv ? "(v " + itos(e.i) + ")" : "(ce " + itos(e.i - nv) + ")";
   case GExpr::STR: return "(s " + hexs(e.s) + ")";
   case GExpr::CALL: return "(call " + itos(e.i) + " " + itos((long long)e.a.size()) + want_args(m, e, CSYM) + ")";
@@ -367,7 +378,7 @@ static std::string want(const GModel &m, const GExpr &e, Ctx c) {
     // args: slope, breakpoint, slope, ..., slope, variable   (2*N args for N slopes)
     size_t ns = e.a.size() / 2;
     std::string s = "(pl " + itos((long long)ns - 1);
-    for (size_t i = 0; i + 1 < e.a.size(); ++i) s += std::string(i % 2 ? " b" : " s") + hexd(e.a[i].x);
+    for (size_t i = 0; i + 1 < e.a.size(); ++i) s += std::string(i % 2 ? " b" : " s") + hx(e.a[i].x);
     return s + " " + want(m, e.a.back(), CNUM) + ")";
   }
   return "(?" + std::string(n) + ")";
@@ -377,6 +388,7 @@ static std::string want_top(const GModel &m, const GExpr &e) {   // C and O segm
   return want(m, e, CNUM);
 }
 static void intended(const GModel &m, int fmt, Lines &out) {
+  g_text = fmt == mp::NLHeader::TEXT; g_prec = m.prec;
   mp::NLHeader h = m.h;
   h.format = fmt;
   if (fmt == mp::NLHeader::TEXT) h.arith_kind = 0;
@@ -397,18 +409,18 @@ static void intended(const GModel &m, int fmt, Lines &out) {
   auto suf_d = [&](const std::string &name, int kind, const Sparse &v) {
     if (v.empty()) return;
     out.push_back("dsuf " + itos(kind & 3) + " " + itos((long long)v.size()) + " " + hexs(name));
-    for (auto &t : v) out.push_back("sval " + itos(t.first) + " " + hexd(t.second));
+    for (auto &t : v) out.push_back("sval " + itos(t.first) + " " + hx(t.second));
   };
   for (auto &s : m.sufs) { if (s.dbl) suf_d(s.name, s.kind, s.dv); else suf_i(s.name, s.kind, s.iv); }
   suf_i("sos", 0, m.sosv); suf_i("sos", 1, m.sosc); suf_d("sosref", 4, m.sosref);
-  auto varb = [&]() { for (size_t i = 0; i < m.vb.size(); ++i) out.push_back("vb " + itos(i) + " " + hexd(m.vb[i].first) + " " + hexd(m.vb[i].second)); };
-  auto x0 = [&]() { if (m.has_x0) for (auto &t : m.x0) out.push_back("x0 " + itos(t.first) + " " + hexd(t.second)); };
-  auto d0 = [&]() { if (m.has_d0) for (auto &t : m.d0) out.push_back("d0 " + itos(t.first) + " " + hexd(t.second)); };
+  auto varb = [&]() { for (size_t i = 0; i < m.vb.size(); ++i) out.push_back("vb " + itos(i) + " " + hx(m.vb[i].first) + " " + hx(m.vb[i].second)); };
+  auto x0 = [&]() { if (m.has_x0) for (auto &t : m.x0) out.push_back("x0 " + itos(t.first) + " " + hx(t.second)); };
+  auto d0 = [&]() { if (m.has_d0) for (auto &t : m.d0) out.push_back("d0 " + itos(t.first) + " " + hx(t.second)); };
   auto conb = [&]() {
     for (size_t i = 0; i < m.cb.size(); ++i) {
       const GConB &b = m.cb[i];
       if (b.k > 0) out.push_back("compl " + itos(i) + " " + itos(b.cvar) + " " + itos(b.k));
-      else out.push_back("cb " + itos(i) + " " + hexd(b.L) + " " + hexd(b.U));
+      else out.push_back("cb " + itos(i) + " " + hx(b.L) + " " + hx(b.U));
     }
   };
   auto defv = [&](int key) {
@@ -418,7 +430,7 @@ static void intended(const GModel &m, int fmt, Lines &out) {
     int pos = key >= 0 ? key : nac - key;
     for (auto &d : it->second) {
       out.push_back("cbeg " + itos(d.index - m.h.num_vars) + " " + itos((long long)d.lin.size()));
-      for (auto &t : d.lin) out.push_back("cterm " + itos(t.first) + " " + hexd(t.second));
+      for (auto &t : d.lin) out.push_back("cterm " + itos(t.first) + " " + hx(t.second));
       out.push_back("cend " + itos(d.index - m.h.num_vars) + " " + itos(pos) + " " + want(m, d.e, CNUM));
     }
   };
@@ -426,16 +438,19 @@ static void intended(const GModel &m, int fmt, Lines &out) {
   defv(0);
   for (size_t i = 0; i < m.cons.size(); ++i) { defv((int)i + 1); out.push_back("acon " + itos(i) + " " + want_top(m, m.cons[i].e)); }
   for (size_t i = 0; i < m.lcons.size(); ++i) { defv((int)(m.cons.size() + i) + 1); out.push_back("lcon " + itos(i) + " " + want(m, m.lcons[i].e, CLOG)); }
-  for (size_t i = 0; i < m.objs.size(); ++i) { defv(-(int)i - 1); out.push_back("obj " + itos(i) + " " + itos(m.objs[i].type) + " " + want_top(m, m.objs[i].e)); }
+  for (size_t i = 0; i < m.objs.size(); ++i) {
+    defv(-(int)i - 1);
+    if (m.need_obj < 0 || m.need_obj == (int)i) out.push_back("obj " + itos(i) + " " + itos(m.objs[i].type) + " " + want_top(m, m.objs[i].e));
+  }
   if (!m.bounds_first) { d0(); x0(); conb(); varb(); }
   if (m.colsizes) { out.push_back("csz"); for (int s : m.colsz) out.push_back("cadd " + itos(s)); }
   for (size_t i = 0; i < m.cons.size(); ++i) if (m.cons[i].lin.size()) {
     out.push_back("jbeg " + itos(i) + " " + itos((long long)m.cons[i].lin.size()));
-    for (auto &t : m.cons[i].lin) out.push_back("jterm " + itos(t.first) + " " + hexd(t.second));
+    for (auto &t : m.cons[i].lin) out.push_back("jterm " + itos(t.first) + " " + hx(t.second));
   }
-  for (size_t i = 0; i < m.objs.size(); ++i) if (m.objs[i].lin.size()) {
+  for (size_t i = 0; i < m.objs.size(); ++i) if (m.objs[i].lin.size() && (m.need_obj < 0 || m.need_obj == (int)i)) {
     out.push_back("gbeg " + itos(i) + " " + itos((long long)m.objs[i].lin.size()));
-    for (auto &t : m.objs[i].lin) out.push_back("gterm " + itos(t.first) + " " + hexd(t.second));
+    for (auto &t : m.objs[i].lin) out.push_back("gterm " + itos(t.first) + " " + hx(t.second));
   }
   out.push_back("end");
 }
@@ -596,6 +611,11 @@ static GModel gen_model(int size_class, int findings_mask) {
   h.flags = coin(60) ? 1 : 0;
   h.arith_kind = mp::arith::GetKind();   // binary needs the native kind; text ignores it
   if (findings_mask & 4) { h.flags = 0; h.arith_kind = 0; }
+  if (findings_mask & 8) {     // SNL2006 header fields: written by WriteNLHeader, skipped by ReadHeader
+    h.num_stages = rint_(2, 4); h.num_rand_common_exprs = rint_(0, 2); h.num_rand_cons = rint_(0, 2); h.num_rand_objs = rint_(0, 2);
+    h.num_rand_calls = rint_(0, 3);
+    if (coin(60)) h.num_rand_vars = rint_(1, 3);    // then the 'k' count is num_vars + num_rand_vars - 1: only readable without column sizes
+  }
   m.prob_name = coin(50) ? "nl_instance" : gen_name(true);
   // complementarity
   int ncompl = 0;
@@ -702,6 +722,7 @@ static GModel gen_model(int size_class, int findings_mask) {
   if (coin(15)) { int k = rint_(1, 3); for (int i = 0; i < k; ++i) m.fixn.push_back({gen_name(true), gen_descr()}); }
   if (coin(15)) { for (int i = 0; i < no; ++i) m.adjn.push_back({gen_name(true), gen_double()}); }
   if (coin(10)) { int k = rint_(1, 2); for (int i = 0; i < k; ++i) m.slcn.push_back(gen_name(true)); }
+  m.names_unchecked = coin(30);
   stat_nodes += g.nodes;
   return m;
 }
@@ -786,6 +807,7 @@ static void run_one(GModel &m, long id, int fmt, bool comments, bool bf, int cs,
     got.push_back("write-failed " + itos((int)res.first));
   } else {
     RecHandler rh(got);
+    rh.need_obj = m.need_obj;
     try {
       mp::ReadNLFile(base + ".nl", rh, reader_flags);
     } catch (const mp::ReadError &e) { got.push_back("read-error");  got.push_back(std::string("# ") + e.what()); }
@@ -799,6 +821,34 @@ static void run_one(GModel &m, long id, int fmt, bool comments, bool bf, int cs,
   ++stat_runs;
   m.h.arith_kind = saved_arith;
 }
+// file-size family: pad the problem name (header comment, present in text and binary) so that the written .nl file is
+// exactly a multiple of the page size (+ delta): NLFileReader then takes its non-mmap path (size == rounded size) or the
+// mmap path with 1 / 4095 bytes in the last page.
+#include <sys/stat.h>
+static long file_size(const std::string &fn) { struct stat st; return ::stat(fn.c_str(), &st) == 0 ? (long)st.st_size : -1; }
+static long stat_padded[3] = {0, 0, 0}, stat_pad_miss = 0;
+static void run_padded(GModel &m, long id, int fmt, bool comments, bool bf, int cs, int delta, int reader_flags) {
+  std::string saved = m.prob_name;
+  m.h.format = fmt; m.comments = comments; m.bounds_first = bf; m.colsizes = cs;
+  int saved_arith = m.h.arith_kind;
+  if (fmt == mp::NLHeader::BINARY) m.h.arith_kind = mp::arith::GetKind();
+  std::string base = g_dir + "/m";
+  { GenFeeder feeder(m); mp::NLUtils utils; mp::WriteNLFile(base, feeder, utils); }
+  m.h.arith_kind = saved_arith;
+  long s0 = file_size(base + ".nl");
+  if (s0 > 0) {
+    const long page = 4096;
+    long target = ((s0 + page - 1) / page) * page + delta;
+    while (target < s0) target += page;
+    m.prob_name = saved + std::string((size_t)(target - s0), 'p');
+    run_one(m, id, fmt, comments, bf, cs, reader_flags);
+    long s1 = file_size(base + ".nl");
+    if (s1 == target) ++stat_padded[delta + 1]; else ++stat_pad_miss;
+    std::printf("# padded fmt=%d delta=%d size=%ld target=%ld\n", fmt, delta, s1, target);
+  }
+  m.prob_name = saved;
+}
+
 static void check_names(const GModel &m) {
   std::string base = g_dir + "/m";
   auto one = [&](const char *ext, const std::vector<std::string> &fed) {
@@ -817,6 +867,14 @@ static void check_names(const GModel &m) {
 }
 
 // ---------------------------------------------------------------- number codec test: g_fmt -> strtod (labelled TEST, not proof)
+static long g_bad_printed = 0;
+static void report_bad(const char *stream, double x, const char *printed, double y, bool consumed_all) {
+  if (g_bad_printed++ < 40000) std::printf("GB %s %s %s%s %s\n", stream, hexd(x).c_str(), printed, consumed_all ? "" : "+junk", hexd(y).c_str());
+}
+static bool adjacent_bits(double x, double y) {
+  uint64_t a, b; std::memcpy(&a, &x, 8); std::memcpy(&b, &y, 8);
+  return (a > b ? a - b : b - a) == 1;
+}
 static void codec_test(long n) {
   long bad = 0, tested = 0; std::string first_bad;
   fmt::Locale loc;
@@ -840,14 +898,14 @@ static void codec_test(long n) {
     double y = loc.strtod(p);
     ++tested;
     bool ok = (x == 0 && y == 0) || (hexd(x) == hexd(y) && *p == 0);
-    if (!ok) { if (!bad) first_bad = hexd(x) + " -> \"" + buf + "\" -> " + hexd(y); ++bad; }
+    if (!ok) { if (!bad) first_bad = hexd(x) + " -> \"" + buf + "\" -> " + hexd(y); ++bad; report_bad("random", x, buf, y, *p == 0); }
   }
   // the fixed list: infinities, extremes
   const double fx[] = {INFINITY, -INFINITY, DBL_MAX, -DBL_MAX, DBL_MIN, 4.9406564584124654e-324, 0.0, -0.0, 1e23, 9007199254740993.0, 5e-324, 0.1, 1.0 / 3};
   for (double x : fx) {
     char buf[64]; DAVID_GAY_GFMT::g_fmt(buf, x, 0); const char *p = buf; double y = loc.strtod(p); ++tested;
     bool ok = (x == 0 && y == 0) || (hexd(x) == hexd(y) && *p == 0);
-    if (!ok) { if (!bad) first_bad = hexd(x) + " -> \"" + buf + "\" -> " + hexd(y); ++bad; }
+    if (!ok) { if (!bad) first_bad = hexd(x) + " -> \"" + buf + "\" -> " + hexd(y); ++bad; report_bad("random", x, buf, y, *p == 0); }
   }
   std::printf("G tested=%ld bad=%ld first=%s\n", tested, bad, bad ? first_bad.c_str() : "-");
 }
@@ -859,7 +917,7 @@ static void codec_test(long n) {
 //  (c) a fixed list.
 // Output: "T tested=.. bad=.. ties=.. first=<hex x> <printed> <hex read back> tie=<0|1>"
 static void codec_boundary_test(long n) {
-  long bad = 0, tested = 0, ties = 0; std::string first_bad;
+  long bad = 0, tested = 0, ties = 0, nonadj = 0; std::string first_bad;
   fmt::Locale loc;
   auto one = [&](double x, bool on_tie) {
     if (std::isnan(x) || std::isinf(x)) return;
@@ -870,6 +928,8 @@ static void codec_boundary_test(long n) {
     ++tested;
     bool ok = (x == 0 && y == 0) || (hexd(x) == hexd(y) && *p == 0);
     if (!ok) {
+      report_bad("boundary", x, buf, y, *p == 0);
+      if (!adjacent_bits(x, y)) ++nonadj;
       if (on_tie) ++ties;
       if (!bad || (on_tie && first_bad.find("tie=1") == std::string::npos))
         first_bad = hexd(x) + " " + buf + " " + hexd(y) + (on_tie ? " tie=1" : " tie=0");
@@ -907,7 +967,7 @@ static void codec_boundary_test(long n) {
   const double fx[] = {4611686018999999488.0, -4611686018999999488.0, 4611686019000000512.0, 9007199254740992.0, 9007199254740994.0,
                        18014398509481984.0, 1e22, 1e23, 9.999999999999999e22, 5e-324, 1.7976931348623157e308, 2.2250738585072014e-308};
   for (double x : fx) one(x, x == 4611686018999999488.0 || x == -4611686018999999488.0);
-  std::printf("T tested=%ld bad=%ld ties=%ld first=%s\n", tested, bad, ties, bad ? first_bad.c_str() : "-");
+  std::printf("T tested=%ld bad=%ld ties=%ld nonadjacent=%ld first=%s\n", tested, bad, ties, nonadj, bad ? first_bad.c_str() : "-");
 }
 
 // ---------------------------------------------------------------- main
@@ -934,6 +994,42 @@ int main(int argc, char **argv) {
     std::fflush(stdout);
     run_one(m, 0, 0, false, true, 1, 0);
     std::printf("# probe-call0 survived\n");
+    return 0;
+  }
+  if (mode == "probe-prec") {     // OutputPrecision() = p: g_fmt with prec != 0, dtoa mode 2; oracle = correctly rounded p digits (libc)
+    static const int ps[] = {1, 2, 3, 6, 9, 12, 15, 16, 17};
+    long id2 = 0;
+    for (int p : ps) for (int k = 0; k < (tier == "thorough" ? 40 : 6); ++k) {
+      GModel m = gen_model(1 + k % 6, 0);
+      m.prec = p;
+      serialise(m, id2);
+      run_one(m, id2, 0, k % 2, k % 3 != 0, k % 3, 0);
+      ++id2;
+    }
+    return 0;
+  }
+  if (mode == "probe-needobj") {  // handler variant: NeedObj(i) only for one objective (ObjHandler::SkipExpr, NullLinearExprHandler)
+    long id2 = 0;
+    for (int k = 0; k < (tier == "thorough" ? 200 : 40); ++k) {
+      GModel m = gen_model(2 + k % 6, 0);
+      if (m.objs.empty()) continue;
+      m.need_obj = rint_(0, (int)m.objs.size());      // == size: no objective needed at all
+      serialise(m, id2);
+      for (int fmt = 0; fmt < 2; ++fmt) run_one(m, id2, fmt, k % 2, k % 3 != 0, k % 3, k % 4 == 0 ? mp::READ_BOUNDS_FIRST : 0);
+      ++id2;
+    }
+    return 0;
+  }
+  if (mode == "probe-nvars0") {   // no variables: WriteNL removes the file and reports CantOpen
+    GModel m = gen_model(1, 0);
+    m.h.num_vars = 0;
+    serialise(m, 0);
+    std::string base = g_dir + "/m";
+    GenFeeder feeder(m); mp::NLUtils utils;
+    mp::WriteNLResult res = mp::WriteNLFile(base, feeder, utils);
+    FILE *f = std::fopen((base + ".nl").c_str(), "rb");
+    std::printf("# nvars0 result=%d file=%s\n", (int)res.first, f ? "present" : "absent");
+    if (f) std::fclose(f);
     return 0;
   }
   if (mode == "probe-tie") {      // separate process: the double 4611686018999999488 through the real writer and reader
@@ -963,19 +1059,27 @@ int main(int argc, char **argv) {
     int mask = 0;
     if (k == 0) mask = 1; else if (k == 1) mask = 2; else if (k == 2) mask = 4; else if (k == 3) mask = 2;
     else if (k % 37 == 5) mask = 1 << (int)(rnd() % 3);
+    else if (k % 11 == 7) mask = 8;
     int size = k < 12 ? 1 + (int)(k % 4) : (k % 5 == 0 ? rint_(8, thorough ? 24 : 14) : rint_(1, 7));
     GModel m = gen_model(size, mask);
     ++stat_models;
     serialise(m, id);
     // every writer option combination: {text,binary} x {comments} x {bounds first/last} x {column sizes 0,1,2}
     bool all = thorough || k < 40 || k % 4 == 0;
-    int ncomb = 0;
+    int ncomb = 0; bool ran_any = false;
     for (int fmt = 0; fmt < 2; ++fmt) for (int c = 0; c < 2; ++c) for (int bf = 0; bf < 2; ++bf) for (int cs = 0; cs < 3; ++cs) {
       bool take = all || (ncomb % 6 == (int)(k % 6)) || (c == 0 && bf == 1 && cs == 1);
       ++ncomb;
       if (!take) continue;
+      if (m.h.num_rand_vars != 0 && cs != 0) continue;
+      ran_any = true;
       run_one(m, id, fmt, c, bf, cs, 0);
       if ((ncomb + k) % 5 == 0) run_one(m, id, fmt, c, bf, cs, mp::READ_BOUNDS_FIRST);
+    }
+    if (!ran_any) run_one(m, id, 0, false, true, 0, 0);
+    if ((thorough ? k % 3 == 0 : k % 8 == 0) && m.h.num_rand_vars == 0) {     // page-size family
+      for (int fmt = 0; fmt < 2; ++fmt) for (int delta = -1; delta <= 1; ++delta)
+        run_padded(m, id, fmt, (k / 8) % 2, (k / 16) % 2 == 0, (int)(k % 3), delta, delta == 0 && (k / 8) % 3 == 0 ? mp::READ_BOUNDS_FIRST : 0);
     }
     check_names(m);
     ++id;
@@ -984,6 +1088,7 @@ int main(int argc, char **argv) {
   codec_test(thorough ? 20000000 : 1000000);
   codec_boundary_test(thorough ? 12000000 : 450000);
   std::printf("# models=%ld runs=%ld expr_nodes=%ld\n", stat_models, stat_runs, stat_nodes);
+  std::printf("# pagesize-runs size%%4096==4095:%ld ==0:%ld ==1:%ld missed:%ld\n", stat_padded[0], stat_padded[1], stat_padded[2], stat_pad_miss);
   for (int i = 0; i < NOPS; ++i) std::printf("# opused %s %ld\n", OPS[i].name, op_used[i]);
   for (int i = 0; i < 14; ++i) std::printf("# dblclass %d %ld\n", i, dbl_class[i]);
   for (auto &kv : hist) std::printf("# hist %s %ld\n", kv.first.c_str(), kv.second);
